@@ -5,6 +5,7 @@ import DaskModel.Model.HLG
 import DaskModel.Model.Elemwise
 import DaskModel.Model.MapBlocks
 import DaskModel.Model.Meta
+import DaskModel.Model.Rewrite
 import DaskModel.Generated.FuseRules
 open Dask
 
@@ -304,6 +305,36 @@ def hLoopDims : Handler := handler fun a => match a with
   | [m, n] => do pure (SExp.ofNats (loopDims (← m.toNat?) (← n.toNat?)))
   | _ => none
 
+/-! C10: rewrite_blockwise index table -/
+def toStrs? (e : SExp) : Option (List String) := do (← e.toList?).mapM SExp.toStr?
+
+def toEntry? : SExp → Option Dask.Rewrite.Entry
+  | .list [n, .sym "none"] => do pure (← n.toStr?, none)
+  | .list [n, ind] => do pure (← n.toStr?, some (← toStrs? ind))
+  | _ => none
+
+def toBLayer? : SExp → Option Dask.Rewrite.BLayer
+  | .list [o, oi, es, na] => do
+    let na ← (← na.toList?).mapM fun p => match p with
+      | .list [k, v] => do pure (← k.toStr?, ← v.toNat?)
+      | _ => none
+    pure { output := ← o.toStr?, outInd := ← toStrs? oi, indices := ← (← es.toList?).mapM toEntry?, newAxes := na }
+  | _ => none
+
+def ofStrs (l : List String) : SExp := .list (l.map .str)
+
+/-- `(rewrite (layer…) root)` ↦ `(ok (outInd…) ((name ind|none)…) ((sym n)…) ((fresh indices…)…))` | `(raised)` -/
+def hRewrite : Handler := handler fun a => match a with
+  | [ls, root] => do
+    let ls ← (← ls.toList?).mapM toBLayer?
+    let root ← root.toStr?
+    pure (okOr ((Dask.Rewrite.rewrite 4000 ls root).map fun f =>
+      .list [ofStrs f.outInd,
+             .list (f.indices.map fun e => .list [.str e.1, match e.2 with | none => .sym "none" | some i => ofStrs i]),
+             .list (f.newAxes.map fun p => .list [.str p.1, SExp.ofNat p.2]),
+             .list (f.allocs.map SExp.ofNats)]))
+  | _ => none
+
 /-! C25: pipeline chunk metadata -/
 open Dask.Meta in
 partial def toProg? : SExp → Option Prog
@@ -337,7 +368,7 @@ def hMetaBlocks : Handler := handler fun a => match a with
 end HlgDrv
 
 def table : List (String × Handler) := [
-  ("metachunks", HlgDrv.hMetaChunks), ("metablocks", HlgDrv.hMetaBlocks),
+  ("metachunks", HlgDrv.hMetaChunks), ("metablocks", HlgDrv.hMetaBlocks), ("rewrite", HlgDrv.hRewrite),
   ("mbplan", HlgDrv.hMbPlan), ("blockinfo", HlgDrv.hBlockInfo), ("loopdims", HlgDrv.hLoopDims),
   ("bshapes", HlgDrv.hBShapes), ("cbd", HlgDrv.hCbd), ("unify", HlgDrv.hUnify), ("argpos", HlgDrv.hArgPos),
   ("bdims", HlgDrv.hBdims), ("makedims", HlgDrv.hMakeDims), ("coordmap", HlgDrv.hCoordMap),
